@@ -26,6 +26,9 @@ type ChildSpec struct {
 	Stop   string `json:"stop"` // f | l
 	Cap    string `json:"cap"`  // wc | r | -
 	StopMs int    `json:"stopMs"`
+	// StartMs delays the child's own start: the time between the invocation of Run (by the composite's
+	// goroutine) and the moment the child registers that it runs (what a runnable does before lc.Started())
+	StartMs int `json:"startMs"`
 }
 
 type CompEntry struct {
@@ -67,12 +70,16 @@ type compChild struct {
 	failCh        chan string
 	teardown      chan struct{}
 	live          *atomic.Int32
+	pending       atomic.Int32 // Run invoked, child not yet registered as running (slow starters)
 }
 
 func (c *compChild) String() string { return c.spec.Name }
 
 func (c *compChild) Run(ctx context.Context) error {
+	c.pending.Add(1)
+	sleepMs(c.spec.StartMs)
 	c.mu.Lock()
+	c.pending.Add(-1)
 	c.gen++
 	g := c.gen
 	if c.active == 0 && c.doneClosed {
@@ -271,12 +278,31 @@ func runCompScenario(sc CompScenario) compResult {
 			time.Sleep(500 * time.Microsecond)
 		}
 	}
+	maxStart := 0
+	for _, sp := range sc.Pool {
+		if sp.StartMs > maxStart {
+			maxStart = sp.StartMs
+		}
+	}
 	snapshot := func(tag string) {
 		time.Sleep(4 * time.Millisecond)
+		for k := 0; k < 400 && maxStart > 0; k++ { // slow starters: until every invoked Run has registered
+			p := int32(0)
+			for _, c := range children {
+				p += c.pending.Load()
+			}
+			if p == 0 {
+				break
+			}
+			time.Sleep(500 * time.Microsecond)
+		}
+		if maxStart > 0 {
+			time.Sleep(time.Millisecond)
+		}
 		var run []string
 		for _, c := range children {
 			c.mu.Lock()
-			if c.running {
+			for k := 0; k < c.active; k++ { // a child that runs twice is listed twice
 				run = append(run, fmt.Sprint(c.idx))
 			}
 			c.mu.Unlock()
@@ -290,11 +316,20 @@ func runCompScenario(sc CompScenario) compResult {
 	var reloadNo, stopNo atomic.Int32
 	doOp := func(op CompOp) {
 		switch {
-		case op.Kind == "reload":
-			k := reloadNo.Add(1) - 1
-			rec.add("LC%d", k)
-			runner.Reload(context.Background())
-			rec.add("LT%d:%s", k, runner.GetState())
+		case op.Kind == "reload" || op.Kind == "reloadx":
+			// reloadx: two reloads back to back (the second is issued while the children started by the
+			// first may not have begun to run)
+			n := 1
+			if op.Kind == "reloadx" {
+				n = 2
+			}
+			var k int32
+			for j := 0; j < n; j++ {
+				k = reloadNo.Add(1) - 1
+				rec.add("LC%d", k)
+				runner.Reload(context.Background())
+				rec.add("LT%d:%s", k, runner.GetState())
+			}
 			if sc.Sequential {
 				snapshot(fmt.Sprint(k))
 			}
@@ -334,7 +369,7 @@ func runCompScenario(sc CompScenario) compResult {
 					case <-runDone:
 					case <-time.After(12 * time.Millisecond):
 					}
-				case op.Kind != "reload":
+				case op.Kind != "reload" && op.Kind != "reloadx":
 					time.Sleep(3 * time.Millisecond)
 				}
 				continue
@@ -517,6 +552,29 @@ func genCompScenario(r interface {
 		}
 		sc.Ops = append(sc.Ops, op)
 	}
+	if sc.Sequential && r.IntN(5) == 0 { // slow starters and back-to-back reloads
+		sc.Pool[r.IntN(np)].StartMs = 5 + r.IntN(5)
+		var cfgs []CompConfig
+		cfgs = append(cfgs, sc.Configs[0])
+		ci := 1
+		for k := range sc.Ops {
+			if sc.Ops[k].Kind != "reload" {
+				continue
+			}
+			cfgs = append(cfgs, sc.Configs[ci])
+			ci++
+			if r.IntN(2) == 0 {
+				sc.Ops[k].Kind = "reloadx"
+				next := genCfg(false)
+				for next.Kind != "ok" {
+					next = genCfg(false)
+				}
+				cfgs = append(cfgs, next)
+			}
+		}
+		sc.Configs = cfgs
+		kind += "+slowstart"
+	}
 	if r.IntN(5) == 0 && !lifecycle { // Stop/cancel placed inside a restart reload (free-style children: no deadlock finding)
 		sc.YieldOp = []string{"stop", "cancel"}[r.IntN(2)]
 		kind += "+yield"
@@ -529,19 +587,27 @@ func genCompScenario(r interface {
 
 var compCorpus = []CompScenario{
 	// grow 1 -> 3, then a new child fails (finding C10-F1, fixed)
-	{Pool: []ChildSpec{{"a", "f", "wc", 0}, {"b", "f", "wc", 0}, {"c", "f", "r", 0}},
+	{Pool: []ChildSpec{{"a", "f", "wc", 0, 0}, {"b", "f", "wc", 0, 0}, {"c", "f", "r", 0, 0}},
 		Configs: []CompConfig{{"ok", []CompEntry{{0, 1}}}, {"ok", []CompEntry{{0, 1}, {1, 1}, {2, 1}}}},
 		Ops:     []CompOp{{0, "reload"}, {0, "fail:1:e"}}, Sequential: true},
 	// permutation with new values: in-place reload
-	{Pool: []ChildSpec{{"a", "f", "wc", 0}, {"b", "f", "r", 0}, {"c", "f", "-", 0}},
+	{Pool: []ChildSpec{{"a", "f", "wc", 0, 0}, {"b", "f", "r", 0, 0}, {"c", "f", "-", 0, 0}},
 		Configs: []CompConfig{{"ok", []CompEntry{{0, 1}, {1, 1}, {2, 1}}}, {"ok", []CompEntry{{2, 2}, {0, 3}, {1, 2}}}},
 		Ops:     []CompOp{{0, "reload"}}, Sequential: true},
 	// Stop inside a restart reload with lifecycle-style children (finding C09-F1, open)
-	{Pool: []ChildSpec{{"a", "l", "wc", 0}, {"b", "l", "wc", 0}},
+	{Pool: []ChildSpec{{"a", "l", "wc", 0, 0}, {"b", "l", "wc", 0, 0}},
 		Configs: []CompConfig{{"ok", []CompEntry{{0, 1}}}, {"ok", []CompEntry{{0, 1}, {1, 1}}}},
 		Ops:     []CompOp{{0, "reload"}}, YieldOp: "stop", Sequential: true},
+	// a child that is slow to start (8 ms between Run's invocation and its own start) is removed by the reload
+	// that follows the one that started it (finding C09-F2, fixed)
+	{Pool: []ChildSpec{{"a", "f", "wc", 0, 0}, {"b", "f", "wc", 0, 8}},
+		Configs: []CompConfig{{"ok", []CompEntry{{0, 1}, {1, 1}}}, {"ok", []CompEntry{{0, 1}}}, {"ok", []CompEntry{{0, 1}, {1, 1}}}, {"ok", []CompEntry{{0, 1}}}},
+		Ops:     []CompOp{{0, "reload"}, {0, "reloadx"}}, Sequential: true},
+	{Pool: []ChildSpec{{"a", "l", "wc", 0, 0}, {"b", "l", "wc", 0, 8}},
+		Configs: []CompConfig{{"ok", []CompEntry{{0, 1}, {1, 1}}}, {"ok", []CompEntry{{0, 1}}}, {"ok", []CompEntry{{1, 1}, {0, 1}}}, {"ok", []CompEntry{{1, 2}}}},
+		Ops:     []CompOp{{0, "reload"}, {0, "reloadx"}}, Sequential: true},
 	// callback error then recovery
-	{Pool: []ChildSpec{{"a", "f", "wc", 0}, {"b", "f", "wc", 0}},
+	{Pool: []ChildSpec{{"a", "f", "wc", 0, 0}, {"b", "f", "wc", 0, 0}},
 		Configs: []CompConfig{{"ok", []CompEntry{{0, 1}}}, {Kind: "err"}, {"ok", []CompEntry{{1, 1}}}},
 		Ops:     []CompOp{{0, "reload"}, {0, "reload"}}, Sequential: true},
 }
@@ -597,6 +663,19 @@ func runComposite(o Opts) {
 		}
 		ev := strings.Join(r.events, " ")
 		h := compHeader(j.sc, r)
+		slow := false
+		for _, sp := range j.sc.Pool {
+			slow = slow || sp.StartMs > 0
+		}
+		if slow {
+			// slow starters: child events arrive after the reload that caused them returned, which the
+			// per-reload statements of C10/C11 and the sequential model do not describe; C09 only
+			e.Case("c09holds "+h+" "+ev, "true")
+			if strings.Contains(ev, "LC") {
+				e.Nontrivial(h[:strings.Index(h, " scn~")] + " " + ev)
+			}
+			continue
+		}
 		for _, c := range []string{"c09holds", "c10holds", "c11holds"} {
 			e.Case(c+" "+h+" "+ev, "true")
 		}
